@@ -288,6 +288,10 @@ def main(argv=None):
         with open(tmp, "w") as fh:
             json.dump(ev, fh, indent=1)
         os.replace(tmp, os.path.join(EVID, f"{prop}.json"))
+        # keep the last run of each tier as well (the main file is always
+        # the most recent run)
+        with open(os.path.join(EVID, f"{prop}.{tier}.json"), "w") as fh:
+            json.dump(ev, fh, indent=1)
     if not a.keep:
         shutil.rmtree(outdir, ignore_errors=True)
     else:
